@@ -31,7 +31,7 @@ ID = "C15"
 CLAIMED = True
 TITLE = "Stream server: each request reaches the handler exactly once, in order"
 REQUIRED_THEOREMS = ["C15_delivery", "C15_delivery_reads", "C15_timeout_only_when_idle",
-                     "C15_generator_closed_once", "C15_connection_closed"]
+                     "C15_generator_closed_once", "C15_connection_closed", "C15_delivery_sep_buffered"]
 LEVEL_TEXT = (
     "Machine-checked proof (Lean 4) that in the model of the client coroutine, the request receivers and the "
     "generator-recreating high-level handler, for every request stream, chunking, arrival schedule and handler shape, "
